@@ -980,7 +980,7 @@ def check_C18(seed: int, n: int) -> dict:
                                 client_streaming=("none", False, True)[i % 3])
             jobs.append(("random", (sc.roots_only() or sc) if i % 2 == 1 else sc, active, s ^ 0x5EED))
         for tag, sc in gen.edge_schemas():
-            if tag in ("feature-cover", "wkt-rpc", "typing-name-message", "builtin-shadow", "wkt-in-map", "cross-file-roots-only", "scale", "alias-collision-packages"):
+            if tag in ("feature-cover", "wkt-rpc", "typing-name-message", "builtin-shadow", "wkt-in-map", "cross-file-roots-only", "scale", "alias-collision-packages", "wkt-named-user-types", "lonely-fields"):
                 jobs.append(("edge:" + tag, sc, active, seed))
         results = parallel(jobs, _c18_job)
         for job, res in zip(jobs, results):
@@ -1307,7 +1307,7 @@ def check_C11(seed: int, n: int) -> dict:
                 continue
             nserv += k
             jobs.append(("random", schema, s ^ 0xC11))
-        jobs += [("edge:" + tag, sc, seed ^ 0xC11) for tag, sc in gen.edge_schemas() if tag in ("feature-cover", "wkt-rpc", "scale", "alias-collision-packages")]
+        jobs += [("edge:" + tag, sc, seed ^ 0xC11) for tag, sc in gen.edge_schemas() if tag in ("feature-cover", "wkt-rpc", "scale", "alias-collision-packages", "wkt-named-user-types")]
         # "every generated service": also the stubs / server bases generated under the other plugin options (the
         # deterministic service schemas under every configuration, the first random ones under the pydantic one)
         active = [c for c in CONFIGS if pydantic_available() or not c[0].endswith("pydantic")]
